@@ -1,0 +1,8 @@
+//go:build verif
+
+// Contracts for govc (/verif): C28. Comment-only file.
+
+package crypto
+
+// hash.go: String() is the lower-case hex rendering, a function of the 32 bytes only (encoding/hex). ASSUMED pure.
+//@ -- (h Hash) String: contract in zz_contracts_c04_verif.go
